@@ -17,16 +17,17 @@ WITHOUT=$(run_demo without)
 git apply seeded_demo/patch.diff
 BUILD=0; (go1.26.8 build ./... && go1.26.8 vet ./pkg/kgo/ ) >/tmp/demo.$NAME.build.log 2>&1 || BUILD=1
 echo "demo exit with patch=$WITH without=$WITHOUT build=$BUILD"
-cd /repo && git apply $D/patch.diff || { echo "patch does not apply to /repo"; exit 1; }
+# run the checks against the worktree itself (it has the patch applied); /repo is not touched, so
+# other runs can go on concurrently. (For the record the same was also done via git apply to /repo
+# for the first wave.)
 RES=""
 for C in $P "$@"; do
-  cd /verif && OUT=$(./check $C quick 2>&1); RC=$?
-  SIGS=$(grep -h "signature:" /verif/logs/$C.quick.log 2>/dev/null | sed 's/^ *signature: //' | sort -u | head -5 | tr '\n' ';')
+  cd /verif && OUT=$(VERIF_REPO=$WT VERIF_OUT=/tmp/seedout-$NAME ./check $C quick 2>&1); RC=$?
+  SIGS=$(grep -h "signature:" /tmp/seedout-$NAME/logs/$C.quick.log 2>/dev/null | sed 's/^ *signature: //' | sort -u | head -5 | tr '\n' ';')
   echo "check $C -> exit $RC  $SIGS"
   RES="$RES{\"check\":\"$C\",\"exit\":$RC,\"signatures\":\"$SIGS\"},"
 done
-git -C /repo checkout -- .
-git -C /repo status --short | grep -v '^??' | head -3
+rm -rf /tmp/seedout-$NAME
 cat > $D/result.json <<EOJ
 {"demo_exit_with_patch": $WITH, "demo_exit_without_patch": $WITHOUT, "build_and_vet_failed": $BUILD, "checks": [${RES%,}]}
 EOJ
